@@ -68,7 +68,18 @@ def _free(circuit_or_ops):
 
 
 def _is_k5(exc):
-    return isinstance(exc, ValueError) and str(exc).startswith("invalid literal for int() with base 10: 'np.")
+    """signature of K5: a ValueError "invalid literal for int() ..." raised while sympy converts a numpy scalar
+    it was handed (frame sympy.core.sympify._convert_numpy_types in the traceback).  The offending literal is
+    the repr of the numpy scalar ('np.float64(1.0)') or a fragment of it ('-17)' from np.complex128(..e-17..))."""
+    if not (isinstance(exc, ValueError) and str(exc).startswith("invalid literal for int() with base 10:")):
+        return False
+    tb = exc.__traceback__
+    while tb is not None:
+        code = tb.tb_frame.f_code
+        if code.co_name == "_convert_numpy_types" and "sympy" in code.co_filename:
+            return True
+        tb = tb.tb_next
+    return False
 
 
 def _mixed(ops):
